@@ -158,7 +158,30 @@ def form_cases(draw, avoid_known=False):
     else:
         form = draw(cf.linear_forms(n, d, runnable_only=avoid_known and n == 1))
     return dict(group=spec, dof_n=n, mt=draw(st.sampled_from(["rigi", "mass"])), kind="bilinear" if bil else "linear",
-                form=form)
+                form=form, pre=draw(st.sampled_from(PRE)))
+
+
+def _prehistory(rec, field, pre, k):
+    """post-processing calls made on the Field object before it is used again in a form (the same object serves the forms and
+    the evaluation of the solution in a load-step loop): they must leave the assembly mode of the field untouched"""
+    if not pre:
+        return
+    if pre.endswith("grad") and not (int(field.dof_n) == int(field.groupElem.dim) == int(field.groupElem.inDim)):
+        # Field.grad in evaluation mode goes through Get_Gradient_e_pg, written for displacement fields (dof_n == dim); the only
+        # use in the repository (examples/WeakForms/LinearElasticity1.py) is of that kind: other fields evaluate their value
+        pre = pre.replace("grad", "val")
+    rec.label("prehistory:" + pre)
+    vals = np.random.default_rng(int(k)).uniform(-1, 1, int(field.groupElem.Ncoords) * int(field.dof_n))
+    fn = (lambda f: f.grad) if pre.endswith("grad") else (lambda f: f())
+    if pre.startswith("eval_mean"):
+        field.Evaluate_e(fn, vals)
+    elif pre.startswith("eval_pg"):
+        field.Evaluate_e(fn, vals, returnMeanValues=False)
+    else:
+        raise KeyError(pre)
+
+
+PRE = [None, None, None, "eval_mean_grad", "eval_pg_grad", "eval_pg_val", "eval_mean_val"]
 
 
 def _setup(case, rec):
@@ -188,6 +211,7 @@ def check_interp(case, rec):
     if known_raise(rec, form, n, bil, tags):
         return
     field = Field(g, n, matrixType=mt)
+    _prehistory(rec, field, case.get("pre"), 7)
     if bil:
         got = BiLinearForm(cf.compile_bilinear(form, d)).Integrate_e(field)
     else:
@@ -346,8 +370,11 @@ def check_assemble(case, rec):
     connect = np.asarray(g.connect)
     sig = dict(elemType=et, dof_n=n, kind=case["kind"])
     txt = cf.describe_form(form, bil)
+    mag = float(case.get("mag", 1.0))
+    rec.label(f"mag:{mag:g}")
     if bil:
-        F = BiLinearForm(cf.compile_bilinear(form, d))
+        f0 = cf.compile_bilinear(form, d)
+        F = BiLinearForm(f0 if mag == 1.0 else (lambda u, v: mag * f0(u, v)))
         A_e = np.asarray(F.Integrate_e(field), float)
         A = F.Assemble(field)
         rec.require(tuple(A.shape) == (Ndof, Ndof), "shape", f"{et}: Assemble returned {A.shape}, expected {(Ndof, Ndof)}", **sig)
@@ -358,7 +385,8 @@ def check_assemble(case, rec):
         rec.close(orc.dense(A) - ref, scale, TOL_ID, "scatter_add_matrix",
                   f"{et} dof_n={n} form {txt}: Assemble(field) is not the scatter-add of Integrate_e(field)", **sig)
     else:
-        L = LinearForm(cf.compile_linear(form, d))
+        l0 = cf.compile_linear(form, d)
+        L = LinearForm(l0 if mag == 1.0 else (lambda v: mag * l0(v)))
         F_e = np.asarray(L.Integrate_e(field), float)
         Fv = L.Assemble(field)
         rec.require(tuple(Fv.shape) == (Ndof, 1), "shape", f"{et}: Assemble returned {Fv.shape}, expected {(Ndof, 1)}", **sig)
@@ -371,7 +399,10 @@ def check_assemble(case, rec):
 
 @st.composite
 def assemble_cases(draw):
-    return draw(form_cases(avoid_known=True))
+    case = draw(form_cases(avoid_known=True))
+    # magnitude of the form (units, tiny domains or conductivities): the assembly is linear in it
+    case["mag"] = draw(st.sampled_from([1.0, 1.0, 1e-9, 1e-13, 1e9]))
+    return case
 
 
 # ------------------------------------------------------------------------------------------
